@@ -505,6 +505,23 @@ class ArgGen:
         if kind == "vecm":
             c = [v for v in self.vec if len(v) > 10 and int(v[:2], 16) in (4, 5, 6, 7, 8, 9, 10, 11, 12, 13, 14, 15, 16, 17, 18, 19, 20, 21, 22, 23, 24, 25, 26, 29)]
             return {"b": self.flip_hex(r.choice(c or self.vec), r.choice([0, 0, 0, 1]))}
+        if kind == "vect" and r.random() < 0.6:
+            # byte-level TMS grammar: | len(2) | first header | addr len | addr | optional headers | payload | with boundary sequence numbers
+            hdr = r.choice([0x9F, 0x9F, 0x1F, 0x90, 0x10, 0x80, 0x00, 0xC0, 0x40, 0xDF, 0xA0])
+            addr = r.choice([b"", b"", bytes(r.getrandbits(8) for _ in range(3)), b"1234"])
+            rest = bytes([hdr, len(addr)]) + addr
+            if hdr & 0x80:
+                if hdr & 0x1F == 0x10:
+                    rest += bytes([r.choice([0x00, 0x01, 0x02, 0x03, 0xFF])])
+                else:
+                    first = r.choice([0x00, 0x00, 0x15, 0x95, 0x1F, 0x9F, 0x80, 0x01])
+                    rest += bytes([first])
+                    if first & 0x80:
+                        rest += bytes([r.choice([0x00, 0x20, 0x04, 0x64, 0x60, 0x24])])
+            if hdr & 0x1F == 0x00 and not hdr & 0x10:
+                rest += r.choice(["", "A", "Hello", "OK-DMR \u2713"]).encode("utf-16-le")
+            h = (len(rest).to_bytes(2, "big") + rest).hex()
+            return {"b": self.flip_hex(h, r.choice([0, 0, 0, 0, 1]))}
         if kind == "vect":
             c = [v for v in self.vec if v.startswith("00") and len(v) >= 12 and int(v[2:4], 16) == len(v) // 2 - 2]
             return {"b": self.flip_hex(r.choice(c or self.vec), r.choice([0, 0, 0, 1]))}
@@ -645,7 +662,7 @@ class C19(Check):
         g = ArgGen(w, harvest(core.repo_root()))
         names = sorted(ENTRIES)
         # swarm: each run concentrates on a random subset of entry points so that pairs repeat within a history
-        subset = k.sample(names, k.choice([2, 3, 5, 8, 16, 40]))
+        subset = k.sample(names, k.choice([1, 1, 2, 3, 5, 8, 16, 40]))
         nclients = k.choice([2, 2, 3, 4])
         n = k.choice([10, 20, 40, 80, 120])
         ops = []
